@@ -487,6 +487,12 @@ def main(prop, tier, replay_path=None, jobs=None):
         if classes.get(c, 0) == 0 and not harness_errors:
             harness_errors.append("required class %r was never generated (generator defect)" % c)
 
+    # classes that must be reached at least n times in the quick tier (a generator whose interesting class dwindles is a defect)
+    if tier == "quick":
+        for c, n in getattr(mod, "MIN_CLASS_COUNTS", {}).items():
+            if classes.get(c, 0) < n and not harness_errors:
+                harness_errors.append("class %r was generated %d times, at least %d are required (generator defect)" % (c, classes.get(c, 0), n))
+
     wall = time.time() - t0
     evidence = dict(
         property_id=prop, tier=tier, seed=base_seed, level=getattr(mod, "LEVEL", "exploration"),
